@@ -201,7 +201,21 @@ def check_guard(eng, run):
     run.floor("C07.guard accumulation sites", n_sites, 5)
     # the FileBased helper really checks the limit
     fb = eng.db.cls("serializers.base_stream.FileBasedPacketSerializer").methods.get("__check_file_buffer_limit")
-    ok = fb is not None and any(isinstance(n, ast.If) and "limit" in ast.unparse(n.test) and any(isinstance(r, ast.Raise) and "LimitOverrunError" in ast.unparse(r) for r in n.body) for n in own_nodes(fb.node))
+    ok = False
+    if fb is not None:
+        from sa.norm import cmp_canon
+        for blk in [x.body for x in ast.walk(fb.node) if isinstance(getattr(x, "body", None), list)]:
+            for i_, n in enumerate(blk):
+                if not (isinstance(n, ast.If) and "limit" in ast.unparse(n.test)):
+                    continue
+                c = cmp_canon(fb, n.test, resolve=True)
+                lim_coef = next((v for k, v in (c[0].items() if c else []) if "limit" in k), 0)
+                raises_in = lambda sts: any(isinstance(r, ast.Raise) and "LimitOverrunError" in ast.unparse(r) for st in sts for r in ast.walk(st))  # noqa: E731
+                # `if size > limit: raise`  or the guard-clause form  `if size <= limit: return` ... `raise`
+                if lim_coef < 0 and raises_in(n.body):
+                    ok = True
+                if lim_coef > 0 and n.body and isinstance(n.body[-1], ast.Return) and (raises_in(blk[i_ + 1:]) or raises_in(n.orelse)):
+                    ok = True
     if not ok:
         run.finding("C07.guard", fb or eng.db.fn("serializers.base_stream:FileBasedPacketSerializer.deserialize"), (fb.node if fb else None) or "missing", "FileBasedPacketSerializer.__check_file_buffer_limit no longer raises LimitOverrunError when the file buffer exceeds the limit")
     run.ob("C07.guard", "FileBasedPacketSerializer.__check_file_buffer_limit", ok)
